@@ -279,6 +279,22 @@ def battery(lib):
         ("quaternion_schur_unified_aed", lambda A: lib.schur.quaternion_schur_unified(A, variant="aed", max_iter=30), (Q_(A33),), False),
         ("quaternion_schur_unified_ds", lambda A: lib.schur.quaternion_schur_unified(A, variant="ds", max_iter=30), (Q_(A33),), False),
         ("quaternion_schur_experimental", lambda A: lib.schur.quaternion_schur_experimental(A, max_iter=30), (Q_(A33),), False),
+    ]
+    # structured inputs on which QR sweeps can stall exactly (exchange / cyclic shift / lower shift matrices)
+    for kind in ("exchange", "cyclic_shift", "cyclic_shift_q", "lower_shift", "companion"):
+        for nn in (2, 3, 4):
+            S_ = Q_(G.special(kind, nn))
+            B += [
+                (f"schur_pure_rayleigh[{kind},{nn}]", lambda A: lib.schur.quaternion_schur_pure(A, max_iter=30, shift_mode="rayleigh"), (S_.copy(),), False),
+                (f"schur_pure_none[{kind},{nn}]", lambda A: lib.schur.quaternion_schur_pure(A, max_iter=30, shift_mode="none"), (S_.copy(),), False),
+                (f"schur_implicit[{kind},{nn}]", lambda A: lib.schur.quaternion_schur_pure_implicit(A, max_iter=30), (S_.copy(),), False),
+                (f"schur_unified_aed[{kind},{nn}]", lambda A: lib.schur.quaternion_schur_unified(A, variant="aed", max_iter=30), (S_.copy(),), False),
+                (f"schur_unified_ds[{kind},{nn}]", lambda A: lib.schur.quaternion_schur_unified(A, variant="ds", max_iter=30), (S_.copy(),), False),
+                (f"schur_realblock[{kind},{nn}]", lambda A: lib.schur.quaternion_schur(A, max_iter=30), (S_.copy(),), False),
+                (f"schur_experimental[{kind},{nn}]", lambda A: lib.schur.quaternion_schur_experimental(A, max_iter=30), (S_.copy(),), False),
+                (f"hessenbergize[{kind},{nn}]", lib.hess.hessenbergize, (S_.copy(),), False),
+            ]
+    B += [
         ("tensor_unfold", t.tensor_unfold, (T3, 1), False),
         ("tensor_fold", t.tensor_fold, (t.tensor_unfold(T3, 2), 2, (2, 3, 2)), False),
         ("tensor_frobenius_norm", t.tensor_frobenius_norm, (T3,), False),
@@ -312,6 +328,7 @@ def battery(lib):
     return B
 
 
+RNG_CONSUMERS = {"power_iteration_nonhermitian"}  # documented to fall back on power_iteration (random start) for Hermitian input
 SCALE_BLIND = {"ishermitian", "build_psf_gaussian", "build_psf_motion", "create_test_matrix", "generate_random_unitary_matrix"}
 
 
@@ -470,6 +487,17 @@ def run_case(case, seed):
                     fails.append(fail("stale_result_after_inplace_update", f"{name}: after overwriting the argument in place the call returns a different value than on a fresh copy of the same data", **tags))
                 elif okf and ok1 and canon_plain(rf) == c1 and name not in SCALE_BLIND:
                     fails.append(fail("battery_alt_not_discriminating", f"{name}: alternate data gives the same result (check design)", **tags))
+            if not rnd:
+                # a deterministic routine must not depend on (or consume) the global random stream
+                np.random.seed(991)
+                st0 = np.random.get_state()[1].copy()
+                ok4, r4 = call(fn, *args)
+                st1 = np.random.get_state()[1]
+                evals += 1
+                if ok4 and ok1 and canon_plain(r4) != canon_plain(r1):
+                    fails.append(fail("depends_on_global_rng", f"{name}: result changes with the state of numpy's global generator", **tags))
+                if name not in RNG_CONSUMERS and not np.array_equal(st0, st1):
+                    fails.append(fail("consumes_global_rng", f"{name}: deterministic routine advances numpy's global generator", **tags))
             if rnd:
                 np.random.seed(778)
                 ok3, r3 = call(fn, *args)
